@@ -39,6 +39,7 @@ Content(id) ==
     [] id = "fb" -> <<T2(98, 49)>>                             \* b1
     [] id = "fc" -> <<T2(99, 49), T2(99, 50)>>                 \* c1 c2   (the last line has no line break)
     [] id = "fe" -> <<>>                                       \* an empty file
+    [] id = "dir" -> <<>>                                      \* a directory: it can be opened, every read fails -- it contributes no line and ends like a file
     [] id = "stdin" -> <<T2(122, 49), T2(122, 50), T2(122, 51)>>
     [] OTHER -> <<>>
 Exists(id) == id # "missing"
